@@ -90,6 +90,16 @@ def slot_new(ctx: Ctx) -> List[Ob]:
                     if e_ is not None and has(f"$v = {base}.get({key})", f.node, e_):
                         ok = True
                 p = m.parent_of(p)
+            if not ok:
+                # known absent through the path conditions: `key in index` is false, or the looked-up slot is None
+                from .util import path_conds, reaching_values
+
+                for a_, pol in path_conds(ctx, f, node):
+                    if (not pol) and norm(a_) == f"{key} in {base}":
+                        ok = True
+                    if pol and isinstance(a_, ast.Compare) and len(a_.ops) == 1 and isinstance(a_.ops[0], ast.Is) and norm(a_.comparators[0]) == "None":
+                        if any(norm(v_) == f"{base}.get({key})" for v_ in reaching_values(ctx, f, node, a_.left)) or norm(a_.left) == f"{base}.get({key})":
+                            ok = True
             obs.append(ctx.ob("SLOT-NEW", ["C02", "C03"], f, f"index slot store in {f.qualname}", node, ok,
                               "" if ok else f"`{norm(node)}` may overwrite an existing clone list: the nodes already filed under that data_id vanish from "
                               "the index (lookups miss them, and _register no longer sees them when checking sibling uniqueness)"))
@@ -134,6 +144,16 @@ def rec_fwd(ctx: Ctx) -> List[Ob]:
             for p in params:
                 a = env._actual_for(w, c, p, bound=bound)
                 ok = a is not None or (w.qualname, p) in REC_ALLOW
+                if not ok:
+                    # omitted where the caller's own value is known to equal the default: `p` is falsy / None on this
+                    # path and the default is None (e.g. the unfiltered branch of _add_from recursing without predicate)
+                    from .util import path_conds
+
+                    d = w.param_default(p)
+                    if d is not None and isinstance(d, ast.Constant) and d.value is None:
+                        for a_, pol in path_conds(ctx, w, c):
+                            if ((not pol) and norm(a_) == p) or (pol and norm(a_) == f"{p} is None"):
+                                ok = True
                 n = w.name
                 props = ["C05", "C12"] if n in ("save", "load") else ["C17"] if "dot" in n or "mermaid" in n or w.module in ("rdf", "dot", "mermaid") \
                     else ["C07"] if n in ("_add_from", "copy_to") else ["C04", "C01"]
